@@ -220,7 +220,7 @@ def collect(ck, tier, ex, hbin, pline):
             ls = [l.rstrip("\n") for l in open(os.path.join(cdir, f))]
             m = re.search(r"mix u=([\d,]*)", " ".join(ls[:4]))
             jobs.insert(0, ("corpus_" + f[:-4], [int(x) for x in m.group(1).split(",") if x] if m else [], [l for l in ls if l.strip() and not l.startswith("#")]))
-    n_random, nops = (36, 50) if tier == "quick" else (1500, 110)
+    n_random, nops = (72, 50) if tier == "quick" else (1500, 110)
     for k in range(n_random):
         g = MixGen(ck.seed * 100003 + 77003 + k)
         sc = g.script(nops)
@@ -335,7 +335,7 @@ def run(ck, prop, tier, ex, ps):
         "drop_reports": res["reported_msgs"], "oracle_hits_this_property": len(mine), "mismatching_lines_this_property": len(mm),
         "wall_s": res.get("wall_s"),
         "rule": "one case = one scripted life of a process with a BoundedDropping (512 B) and an UnboundedBlocking (512 B first node) frontend: "
-                "11 directed scripts (unbounded context first and alive / exits first / bounded first / in the middle / registering inside a poll, "
+                "12 directed scripts (unbounded context first and alive / exits first / bounded first / in the middle / registering inside a poll, "
                 "reports on the idle, Flush and exit paths) + random scripts by focus with a random frontend per thread; compared line by line "
                 "with the model until an unbounded queue grows (out of scope), judged by the oracles throughout"}
 
